@@ -117,7 +117,7 @@ def run_case(case, cnt=None, root=None, idset=None):
         host = clicase.build_host(rnd, nstmt=rnd.randrange(2, 10))
         for k in case["faults"]:
             f = faults.render(k, rnd.choice(["\t", "    ", ""]))
-            names = host["linked"] if k == "second-link" else host["linked"] + host["included"]
+            names = host["linked"] if k in ("second-link", "backward-skip-late-target") else host["linked"] + host["included"]
             clicase.plant(host, rnd, f, where=rnd.choice(names))
         for k in case["warnings"]:
             clicase.plant(host, rnd, faults.render_warning(k, "\t"), where=rnd.choice(host["linked"]))
